@@ -66,6 +66,8 @@ def define():
         swap_t(pair, "none", "heap" if i % 2 else "stack", v, o)
     swap_t("ElemMutRaw", "none", "heap", "W8D", "W8D")
     swap_t("HandleWrapper", "none", "heap", "B3D", "B3D")
+    swap_t("HandleRaw", "none", "stack", "B3D", "B3D")
+    swap_t("ElemMutWrapper", "none", "heap", "W8", "W8")
     swap_t("RawElemMut", "none", "stack", "W8", "W8")
     for (v, o) in (("W8", "u64"), ("W8D", "W8D"), ("B3D", "B1"), ("W8", "a8")):
         down("none", "heap" if v != "B3D" else "stack", v, o)
